@@ -1456,6 +1456,38 @@ func comparisonText(c *core.Ctx, pkg *types.Package, info *types.Info, e ast.Exp
 		return has(constant.StringVal(tv.Value))
 	}
 	switch x := e.(type) {
+	case *ast.Ident:
+		// a local that holds the condition: every value assigned to it in the enclosing function is a comparison
+		o := info.ObjectOf(x)
+		if o == nil || depth > 2 {
+			return false
+		}
+		for _, d := range c.AllDecls() {
+			if d.Body == nil || !(d.Body.Pos() <= x.Pos() && x.End() <= d.Body.End()) {
+				continue
+			}
+			all, any := true, false
+			ast.Inspect(d.Body, func(k ast.Node) bool {
+				as, ok := k.(*ast.AssignStmt)
+				if !ok || len(as.Lhs) != len(as.Rhs) {
+					return true
+				}
+				for i, l := range as.Lhs {
+					if id, ok := l.(*ast.Ident); ok && info.ObjectOf(id) == o {
+						if tv, ok := info.Types[as.Rhs[i]]; ok && tv.Value != nil && tv.Value.Kind() == constant.String && constant.StringVal(tv.Value) == "" {
+							continue // the empty initial value
+						}
+						any = true
+						if !comparisonText(c, pkg, info, as.Rhs[i], depth+1) {
+							all = false
+						}
+					}
+				}
+				return true
+			})
+			return any && all
+		}
+		return false
 	case *ast.BinaryExpr:
 		if x.Op == token.ADD {
 			return comparisonText(c, pkg, info, x.X, depth) || comparisonText(c, pkg, info, x.Y, depth)
